@@ -9,6 +9,10 @@ float32 and float64) records the float64 sum |psi|^2 of every ensemble member be
 
   step-non-increase        after <= before*(1+tol) for every member of every multislice step
   propagate-non-increase   the same for every FresnelPropagator.propagate call
+  propagate-intensity-budget  for every propagate call (incident wave <= 4 MB) the outgoing intensity of every member equals
+                           sum_k |K|^2 |FFT(psi_in)|^2 / N, with psi_in a copy of the wave that entered *this* call and a
+                           numpy complex128 DFT: intensity can only leave through the kernel modulus, and the result must
+                           belong to the wave that was passed in (not to a buffer remembered from an earlier call)
   kernel-modulus           the kernel the propagator actually used has |K| <= 1 and |K| == anti-alias aperture
                            (i.e. the Fresnel phase and every tilt factor have unit modulus), incl. tilt axes
   transmission-unit-modulus  ||t|-1| <= tol for every transmission function abTEM computed
@@ -27,6 +31,14 @@ zero potential with the real multislice code:
 
   vacuum-preserves-intensity   sum|psi|^2 unchanged by every vacuum step
   reversible                   propagate(-dz) o propagate(+dz) = identity
+
+Object reuse (kind "reuse"): one FresnelPropagator and one AntialiasAperture object serve a whole sequence of
+*different* band-limited waves (different array objects and intensities; same shape, then another shape / lead shape, then
+the first shape again; constant or per-call propagator order; in place or not; propagate or full vacuum multislice step; forward-back per wave or all forwards
+first and all backs afterwards; fftw and numpy), as the multislice loop does for slices and frozen-phonon configurations:
+
+  reuse-preserves-intensity    every wave keeps its own intensity
+  reuse-reversible             -dz through the same objects returns each wave to its own original
 
 Known finding C04-bandlimited-transmission-overshoot: the transmission function is band limited *after*
 exponentiation, so |t_bl(r)| exceeds 1 next to sharp features (Gibbs overshoot).  A step may then increase
@@ -51,11 +63,13 @@ RULE = ("mixture of (a) real pipelines: random cells 1-4 atoms incl. heavy eleme
         "mixed sign, smooth or white), grids 10-48 odd/even/rectangular, scalar or per-slice thicknesses, Probe/PlaneWave/SMatrix/"
         "Waves, eager/lazy, frozen phonons, no/base/per-axis/Nx2 tilt, order 1/2, conjugate, transpose, exit planes, fftw/numpy, "
         "float32/float64; (b) building blocks on grids 1-96 with anisotropic sampling, energies 20-1000 keV, dz +-0.2-50, tilts "
-        "+-30 mrad, anti-alias (cutoff,taper) variants; (c) reversibility of band-limited random waves; (d) hostile sharp-edged "
+        "+-30 mrad, anti-alias (cutoff,taper) variants; (c) reversibility of band-limited random waves; (c2) sequences of 4-8 "
+        "different waves (two grid shapes, distinct intensities) through one shared propagator/aperture object; (d) hostile sharp-edged "
         "phase objects with the wave focused on the Gibbs overshoot; non-trivial = >=2 monitored steps through a potential with "
         "max|sigma V| > 0.1 rad, or a reversibility case with >= 5 populated Fourier pixels; distinct = distinct case signature")
 CLAUSES = ["step-non-increase", "propagate-non-increase", "kernel-modulus", "transmission-unit-modulus", "aperture-range",
-           "aperture-flat-zone", "vacuum-preserves-intensity", "reversible", "pipeline-reach"]
+           "aperture-flat-zone", "vacuum-preserves-intensity", "reversible", "pipeline-reach", "propagate-intensity-budget",
+           "reuse-preserves-intensity", "reuse-reversible"]
 QUICK = dict(n=400, time=35)
 THOROUGH = dict(n=6400, time=270, shards=16)
 
@@ -163,14 +177,36 @@ def gen_hostile(rng):
             "seed": int(rng.integers(0, 2 ** 31))}
 
 
+def gen_reuse(rng):
+    s0 = float(rng.uniform(0.03, 0.3))
+    shapes = []
+    for _ in range(2):
+        shapes.append({"gpts": _gpts(rng, 8, 56), "lead": [int(n) for n in rng.integers(1, 4, size=int(rng.integers(0, 3)))]})
+    if rng.random() < 0.3:
+        shapes[1]["gpts"] = list(shapes[0]["gpts"])        # same grid, different ensemble shape (or identical shape)
+    # same shape twice, another shape, the first shape again, then anything
+    order = [0, 0, 1, 0] + [int(i) for i in rng.integers(0, 2, size=int(rng.integers(0, 5)))]
+    items = [{"shape": i, "amp": float(np.round(2.0 ** rng.uniform(-3, 3), 4)), "in_place": bool(rng.random() < 0.7),
+              "op": str(rng.choice(["propagate", "propagate", "step"])), "dz": float(rng.uniform(0.2, 5.0)),
+              "fill": float(rng.choice([1.0, 0.5])), "order": int(rng.choice([1, 2]))} for i in order]
+    return {"kind": "reuse", "sampling": [s0, s0] if rng.random() < 0.5 else [s0, float(s0 * rng.uniform(0.5, 2.0))],
+            "energy": float(np.exp(rng.uniform(np.log(2e4), np.log(1e6)))), "shapes": shapes, "items": items,
+            "same_dz": bool(rng.random() < 0.5), "interleave": bool(rng.random() < 0.5), "order": int(rng.choice([1, 2])),
+            "mixed_order": bool(rng.random() < 0.35), "back_reversed": bool(rng.random() < 0.5),
+            "tilt": _tilt_spec(rng), "aa": _aa(rng), "precision": str(rng.choice(["float32", "float64"])),
+            "fft": str(rng.choice(["fftw", "fftw", "numpy"])), "seed": int(rng.integers(0, 2 ** 31))}
+
+
 def gen(rng, tier):
     r = rng.random()
     if r < 0.07:
         return gen_pipeline(rng)
-    if r < 0.47:
+    if r < 0.42:
         return gen_blocks(rng)
-    if r < 0.93:
+    if r < 0.78:
         return gen_reversible(rng)
+    if r < 0.93:
+        return gen_reuse(rng)
     return gen_hostile(rng)
 
 
@@ -194,9 +230,38 @@ def fixed_cases(tier):
             c["order"], c["conjugate"], c["transpose"] = [(2, False, False), (1, True, False), (1, False, True),
                                                            (2, True, True), (1, False, False), (2, False, True)][k]
         c["gpts"] = [min(n, 32) for n in c["gpts"]]
+        if c["potkind"] == "frozen" and not lazy:
+            # eager loop over several configurations: every configuration is a new wave array through the same
+            # propagator / aperture objects, with the default (fftw, cached plans) convolution
+            c["num_configs"], c["fft"] = 3, "fftw"
         out.append(c)
     out.append(gen_hostile(rng))
     out.append(dict(gen_hostile(rng), pattern="half", phase=float(np.pi), precision="float64"))
+    for prec, inter in (("float32", False), ("float64", True)):
+        c = gen_reuse(rng)
+        c.update(precision=prec, fft="fftw", interleave=inter, same_dz=True, tilt={"kind": "none"})
+        c["mixed_order"] = False
+        for it in c["items"][:4]:
+            it["in_place"], it["op"] = True, "propagate"
+        out.append(c)
+    # same grid and tilt axes, different number of ensemble axes through one propagator
+    c = gen_reuse(rng)
+    c.update(precision="float64", fft="fftw", interleave=True, same_dz=True, mixed_order=False, back_reversed=False,
+             tilt={"kind": "axes", "x": [12.5, -20.0], "y": 7.0})
+    c["shapes"] = [{"gpts": [24, 18], "lead": []}, {"gpts": [24, 18], "lead": [3]}]
+    c["items"] = c["items"][:4]
+    for it in c["items"]:
+        it["op"] = "propagate"
+    out.append(c)
+    # same waves shape and distance, propagator order changing from call to call
+    c = gen_reuse(rng)
+    c.update(precision="float64", fft="fftw", interleave=True, same_dz=True, mixed_order=True, back_reversed=True,
+             energy=30e3, tilt={"kind": "none"}, aa=None)
+    c["shapes"][1] = dict(c["shapes"][0])
+    c["items"] = c["items"][:4]
+    for it, o in zip(c["items"], (1, 2, 2, 1)):
+        it["order"], it["op"], it["dz"] = o, "propagate", 4.0
+    out.append(c)
     # every clause is evaluated even when a loaded machine leaves no time for random cases
     for prec in ("float32", "float64"):
         out.append(dict(gen_reversible(rng), precision=prec, tilt={"kind": "axes", "x": [12.5, -20.0], "y": 7.0}))
@@ -225,6 +290,8 @@ def _ratio(before, after):
     """max over members of after/before; members with before==0 must stay (numerically) 0."""
     b = np.atleast_1d(before).ravel()
     a = np.atleast_1d(after).ravel()
+    if a.shape != b.shape:          # the call changed the ensemble shape of the waves
+        return float("inf")
     pos = b > 0
     r = float((a[pos] / b[pos]).max()) if pos.any() else 0.0
     if (~pos).any() and float(a[~pos].max()) > 0:
@@ -274,6 +341,23 @@ def model_step_ratios(psi, v, energy, sampling, conjugate):
     return out
 
 
+def _budget_residual(psi0, kmod, before, after):
+    """max over members of |after - sum_k |K|^2 |FFT(psi_in)|^2 / N| / before: what leaves a propagation is exactly what the
+    kernel modulus lets through of the wave that *entered this call* (numpy complex128 DFT of a copy of the input)."""
+    n = psi0.shape[-2] * psi0.shape[-1]
+    k2 = np.broadcast_to(kmod ** 2, psi0.shape).reshape((-1,) + psi0.shape[-2:])
+    flat = psi0.reshape((-1,) + psi0.shape[-2:])
+    b = np.atleast_1d(before).ravel()
+    a = np.atleast_1d(after).ravel()
+    worst = 0.0
+    for i, m in enumerate(flat):
+        f = np.fft.fft2(m.astype(np.complex128))
+        want = float(((f.real ** 2 + f.imag ** 2) * k2[i]).sum()) / n
+        scale = b[i] if b[i] > 0 else 1.0
+        worst = max(worst, abs(a[i] - want) / scale)
+    return worst
+
+
 def make_hooks(rec):
     import abtem
 
@@ -321,10 +405,12 @@ def make_hooks(rec):
             arr = waves._array
             before = L.intensity(arr)
             prec = _prec_of(arr)
+            # the call may work in place (and on cached FFT plans): keep the incident wave when it is small
+            psi0 = np.array(arr, copy=True) if np.asarray(arr).nbytes <= 4e6 else None
             out = orig(self, waves, thickness, in_place=in_place, order=order)
             after = L.intensity(out._array)
             ratio = _ratio(before, after)
-            kmax = kres = None
+            kmax = kres = budget = None
             try:
                 k = np.asarray(self._array)
                 from abtem.antialias import antialias_aperture
@@ -332,9 +418,11 @@ def make_hooks(rec):
                 mod = np.abs(k.astype(np.complex128))
                 kmax = float(mod.max())
                 kres = float(np.abs(mod - a).max())
+                if psi0 is not None and np.shape(after) == np.shape(before):
+                    budget = _budget_residual(psi0, mod, before, after)
             except Exception as e:
                 kres = repr(e)
-            rec.props.append((ratio, kmax, kres, int(np.size(before)), prec, float(thickness)))
+            rec.props.append((ratio, kmax, kres, int(np.size(before)), prec, float(thickness), budget))
             return out
         return propagate
 
@@ -408,11 +496,13 @@ def judge(ctx, rec, case, vacuum=False):
         else:
             ctx.expect(False, "step-non-increase", ratio=ratio, model_bound=bound, gain_minus_model=model, max_phase=phase,
                        precision=prec)
-    for ratio, kmax, kres, n, prec, dz in rec.props:
+    for ratio, kmax, kres, n, prec, dz, budget in rec.props:
         ctx.monitor("propagate-hook-evaluations")
         ctx.expect(ratio <= 1 + TOL[prec]["inc"], "propagate-non-increase", ratio=ratio, precision=prec, dz=dz)
         ok = isinstance(kres, float) and kmax <= 1 + TOL[prec]["mod"] and kres <= 5 * TOL[prec]["mod"]
         ctx.expect(ok, "kernel-modulus", where="pipeline", kernel_max=kmax, modulus_minus_aperture=kres, precision=prec, dz=dz)
+        if budget is not None:
+            ctx.close(budget, 0.0, "propagate-intensity-budget", rtol=0, atol=TOL[prec]["vac"], precision=prec, dz=dz, ratio=ratio)
     for res, prec, is_complex in rec.trans:
         ctx.monitor("transmission-hook-evaluations")
         ctx.expect(isinstance(res, float) and is_complex and res <= TOL[prec]["mod"], "transmission-unit-modulus",
@@ -661,6 +751,71 @@ def check_reversible(ctx, case):
     ctx.nontrivial(support.get("n", 0) >= 5)
 
 
+def check_reuse(ctx, case):
+    import abtem
+    import abtem.multislice as ms
+    from abtem.antialias import AntialiasAperture
+    rng = np.random.default_rng(case["seed"])
+    samp, prec = tuple(case["sampling"]), case["precision"]
+    tol = TOL[prec]
+    rec = Recorder()
+    with _aa_ctx(case), G.Wrapped() as wr:
+        for owner, name, make in make_hooks(rec):
+            wr.patch(owner, name, make)
+        prop = ms.FresnelPropagator()
+        aa = AntialiasAperture()
+        dtype = np.float64 if prec == "float64" else np.float32
+        alive = []
+
+        def make(it):
+            sh = case["shapes"][it["shape"]]
+            gpts = tuple(sh["gpts"])
+
+            def arr(shape):
+                a, _ = L.bandlimited(rng, shape, gpts, samp, fill=it["fill"])
+                a *= it["amp"] / np.sqrt(L.intensity(a))[..., None, None]
+                return a
+            w = L.tilted_waves(arr, gpts, samp, case["energy"], case["tilt"], lead=sh["lead"])
+            return w, w.array.copy(), gpts
+
+        def move(w, it, gpts, sign):
+            dz = case["items"][0]["dz"] if case["same_dz"] else it["dz"]
+            order = it["order"] if case["mixed_order"] else case["order"]
+            if it["op"] == "propagate":
+                return prop.propagate(w, sign * dz, in_place=it["in_place"], order=order)
+            vac = abtem.PotentialArray(np.zeros((1,) + gpts, dtype=dtype), slice_thickness=dz, sampling=samp)
+            return ms.conventional_multislice_step(w, next(vac.generate_slices()), prop, aa, conjugate=sign < 0, order=order)
+
+        def judge_fwd(f, ref, k, it):
+            i0 = L.intensity(ref)
+            ctx.close(L.intensity(f.array) / i0, np.ones_like(i0), "reuse-preserves-intensity", rtol=0, atol=tol["vac"],
+                      item=k, op=it["op"], in_place=it["in_place"], amp=it["amp"])
+
+        def judge_back(b, ref, k, it):
+            ctx.close(b.array, ref, "reuse-reversible", rtol=0, atol=tol["rev"] * float(np.abs(ref).max()), item=k,
+                      op=it["op"], in_place=it["in_place"], amp=it["amp"])
+
+        if case["interleave"]:
+            fwd = []
+            for k, it in enumerate(case["items"]):
+                w, ref, gpts = make(it)
+                f = move(w, it, gpts, +1)
+                judge_fwd(f, ref, k, it)
+                fwd.append((f, ref, gpts, it, k))
+                alive.append(w)
+            for f, ref, gpts, it, k in (fwd[::-1] if case["back_reversed"] else fwd):
+                judge_back(move(f, it, gpts, -1), ref, k, it)
+        else:
+            for k, it in enumerate(case["items"]):
+                w, ref, gpts = make(it)
+                f = move(w, it, gpts, +1)
+                judge_fwd(f, ref, k, it)
+                judge_back(move(f, it, gpts, -1), ref, k, it)
+                alive.append(w)         # keep earlier buffers alive: a stale reference must not be rescued by reuse of memory
+    judge(ctx, rec, case)
+    ctx.nontrivial(len({it["amp"] for it in case["items"]}) >= 2)
+
+
 def _pattern(case, rng):
     n, m = case["gpts"]
     p = case["pattern"]
@@ -706,4 +861,5 @@ def check_hostile(ctx, case):
 
 
 def check(ctx, case):
-    {"pipeline": check_pipeline, "blocks": check_blocks, "reversible": check_reversible, "hostile": check_hostile}[case["kind"]](ctx, case)
+    {"pipeline": check_pipeline, "blocks": check_blocks, "reversible": check_reversible, "hostile": check_hostile,
+     "reuse": check_reuse}[case["kind"]](ctx, case)
